@@ -466,6 +466,8 @@ class Calls(Interp):
                 c = None
         if c is not None and key in self.reg.inline_fresh and args and self.is_fresh(args[0]):
             c = None       # receiver built on this path: execute the real body on it
+        if c is not None and key in self.reg.inline_closure_args and any(isinstance(a, FuncV) for a in args):
+            c = None       # a local closure is passed: execute the real body (the contract speaks about abstract callbacks)
         if c is not None and not c.inline:
             recv = None
             a = list(args)
@@ -512,7 +514,14 @@ class Calls(Interp):
         return False
 
     def run_generator(self, f, node):
-        self.unsupported(node, "generator function %s" % f.name)
+        """a generator function is run to exhaustion; its value is the sequence of yielded values"""
+        self.frame.locals["_out"] = PSeq(so.EMPTY_SEQ)
+        try:
+            self.exec_block(f.node.body)
+        except PyReturn:
+            pass
+        out = self.frame.locals["_out"]
+        return SV(Val.tup(out.seq), "iter")
 
     def bind_args(self, f, args, kwargs, node, star=None, dstar=None):
         a = f.node.args
@@ -1378,6 +1387,9 @@ class Calls(Interp):
         if isinstance(v, LazyMapV):
             v = v.force(self, node)
         seq = self.as_seq(v, node) if not isinstance(v, TupV) else so.seq_of([self.to_term(x, node) for x in v.items])
+        sep = z3.simplify(self.as_str(recv))
+        if z3.is_string_value(sep) and sep.as_string() == "":
+            return SV(Val.strv(sconcat(seq)), "str")       # "".join(xs): plain concatenation
         return SV(Val.strv(so.fmt(z3.StringVal("join"), z3.Concat(z3.Unit(recv.term), seq))), "str")
 
     def bm_str_format(self, recv, args, kwargs, node):
@@ -1394,10 +1406,23 @@ class Calls(Interp):
         return SV(Val.strv(so.fmt(z3.StringVal("strip"), z3.Unit(recv.term))), "str")
 
     def bm_str_encode(self, recv, args, kwargs, node):
+        r0 = z3.simplify(self.as_str(recv))
+        if z3.is_string_value(r0) and r0.as_string() == "":
+            return SV(Val.bytesv(z3.StringVal("")), "bytes")       # "".encode(anything) == b""
         return SV(Val.bytesv(str_encode(self.as_str(recv), so.seq_of([self.to_term(a, node) for a in args]))), "bytes")
 
     def bm_str_find(self, recv, args, kwargs, node):
         return SV(Val.intv(z3.IndexOf(self.as_str(recv), self.as_str(args[0], node), 0)), "int")
+
+    def bm_bytes_join(self, recv, args, kwargs, node):
+        v = args[0]
+        seq = self.as_seq(v, node) if not isinstance(v, TupV) else so.seq_of([self.to_term(x, node) for x in v.items])
+        sep = z3.simplify(self.as_str(recv))
+        empty = z3.is_string_value(sep) and sep.as_string() == ""
+        if not empty:
+            # b"".join is the only form used; an encode of the empty string is the empty bytes (background axiom)
+            self.assume(self.as_str(recv) == z3.StringVal(""))
+        return SV(Val.bytesv(bconcat(seq)), "bytes")
 
     def bm_bytes_decode(self, recv, args, kwargs, node):
         return SV(Val.strv(bytes_decode(self.as_str(recv), so.seq_of([self.to_term(a, node) for a in args]))), "str")
@@ -1544,6 +1569,32 @@ class Calls(Interp):
             qv = [x]
         else:
             seq, et = self.iter_seq(it, node)
+            if not isinstance(seq, ZipV) and z3.is_app(seq) and seq.decl().name() == "elems" and z3.is_app(seq.arg(0)) \
+                    and seq.arg(0).decl().name() == "tup":
+                seq = seq.arg(0).arg(0)          # elems(tup(s)) is s
+            if not isinstance(seq, ZipV) and z3.is_app(seq) and seq.decl().kind() == z3.Z3_OP_SEQ_CONCAT and not getattr(self, "_no_split", False):
+                ch = seq.children()
+                lastc = ch[-1]
+                if z3.is_app(lastc) and lastc.decl().kind() == z3.Z3_OP_SEQ_UNIT:
+                    # quantification over  s ++ [x]:  split off x so that the goal matches facts about s syntactically
+                    init = ch[0] if len(ch) == 2 else z3.Concat(*ch[:-1])
+                    self.push_bind(g.target, self.from_term(lastc.arg(0), et), node)
+                    try:
+                        conds_l = [self.truthy(self.ev(c), node) for c in g.ifs]
+                        body_l = self.truthy(self.ev(gen.elt), node)
+                    finally:
+                        self.pop_bind()
+                    j = z3.Int(qid)
+                    self.push_bind(g.target, self.from_term(init[j], et), node)
+                    try:
+                        conds = [self.truthy(self.ev(c), node) for c in g.ifs]
+                        body = self.truthy(self.ev(gen.elt), node)
+                    finally:
+                        self.pop_bind()
+                    rng = z3.And(0 <= j, j < z3.Length(init))
+                    if which == "all":
+                        return BoolSV(z3.And(z3.ForAll([j], z3.Implies(z3.And([rng] + conds), body)), z3.Implies(z3.And(conds_l), body_l)))
+                    return BoolSV(z3.Or(z3.Exists([j], z3.And([rng] + conds + [body])), z3.And(conds_l + [body_l])))
             j = z3.Int(qid)
             if isinstance(seq, ZipV):
                 rng = z3.And(0 <= j, j < seq.length(self))
@@ -1824,6 +1875,20 @@ class Calls(Interp):
         seq = self.as_seq(args[1], node)
         return SV(Val.strv(so.fmt(z3.StringVal("join"), z3.Concat(z3.Unit(sep), seq))), "str")
 
+    def sp_str_encode_(self, args, kwargs, node):
+        """s.encode(*args): the executor's uninterpreted encoding function"""
+        return SV(Val.strv(str_encode(self.as_str(args[0], node), self.as_seq(args[1], node))), "str")
+
+    def sp_bytes_str(self, args, kwargs, node):
+        """the raw string of a bytes value (spec-level sort bridge)"""
+        return SV(Val.strv(Val.bs(self.to_term(args[0], node))), "str")
+
+    def sp_bytes_of_str(self, args, kwargs, node):
+        return SV(Val.bytesv(self.as_str(args[0], node)), "bytes")
+
+    def sp_asbytes(self, args, kwargs, node):
+        return SV(self.to_term(args[0], node), "bytes")
+
     def sp_asstr(self, args, kwargs, node):
         return SV(self.to_term(args[0], node), "str")
 
@@ -1863,6 +1928,8 @@ class Calls(Interp):
         return SV(Val.strv(z3.If(pos < 0, s_, z3.SubString(s_, 0, pos))), "str")
 
     def sp_fieldof(self, args, kwargs, node):
+        if isinstance(args[0], (FuncV, BoundV)):
+            return SV(Val.absent, None)        # a plain closure has no ghost fields
         return SV(self.get_field(self.refof(args[0], node), self.const_str(args[1], node)), None)
 
     def sp_str_of(self, args, kwargs, node):
@@ -2022,6 +2089,28 @@ def deliver_axioms():
 
 
 opaque_method = z3.Function("opaque_method", S, SeqV, Val)
+
+
+sconcat = z3.Function("sconcat", SeqV, S)      # concatenation of a sequence of str values
+bconcat = z3.Function("bconcat", SeqV, S)      # concatenation of a sequence of bytes values (as raw strings)
+
+
+bcp = z3.Function("bcp", SeqV, z3.IntSort(), S)   # concatenation of the first k bytes values of a sequence
+
+
+def concat_axioms():
+    s_ = z3.Const("cs", SeqV)
+    x = z3.Const("cx", Val)
+    k = z3.Int("ck")
+    return [
+        z3.ForAll([s_], bcp(s_, 0) == z3.StringVal("")),
+        z3.ForAll([s_, k], z3.Implies(z3.And(0 <= k, k < z3.Length(s_)), bcp(s_, k + 1) == z3.Concat(bcp(s_, k), Val.bs(s_[k]))),
+                  patterns=[bcp(s_, k + 1)]),
+        sconcat(so.EMPTY_SEQ) == z3.StringVal(""),
+        z3.ForAll([s_, x], sconcat(z3.Concat(s_, z3.Unit(x))) == z3.Concat(sconcat(s_), Val.s(x))),
+        bconcat(so.EMPTY_SEQ) == z3.StringVal(""),
+        z3.ForAll([s_, x], bconcat(z3.Concat(s_, z3.Unit(x))) == z3.Concat(bconcat(s_), Val.bs(x))),
+    ]
 
 
 def set_card(m):
